@@ -1,7 +1,7 @@
 (* Props/C12.v -- state-map duality and state constructors denote the documented states.  Property theorems only.
    The density matrix named by a tableau is rho = 2^-r prod_{a in [r,N)} (1+S_a)/2; at the level of this development a state is its signed stabilizer group, so
    "denotes the named density matrix" is stated through the active rows.  to_qutip and the dense matrices are compared numerically by the correspondence check (QuTiP trusted). *)
-From PC Require Import Model.Base Model.Pauli Model.CMap Model.Tableau Model.Spec Proofs.Transform Proofs.MaskFacts Proofs.TableauInv Proofs.ReachFacts Proofs.ProjectCFacts Proofs.GhzFacts Model.Ket Model.Poly Model.PolySem Model.Sample Proofs.TraceFacts Proofs.ProjectorFacts Proofs.OverlapFacts Proofs.PositiveFacts.
+From PC Require Import Model.Base Model.Pauli Model.CMap Model.Tableau Model.Spec Proofs.Transform Proofs.MaskFacts Proofs.TableauInv Proofs.ReachFacts Proofs.ProjectCFacts Proofs.GhzFacts Model.Ket Model.Poly Model.PolySem Model.Sample Proofs.TraceFacts Proofs.ProjectorFacts Proofs.OverlapFacts Proofs.PositiveFacts Model.Entropy Model.Random Proofs.ProbSumFacts Proofs.NamedStatesFacts.
 Open Scope Z_scope.
 
 (* converting a map to a state gives the state obtained by applying the map to |0...0>, signs included: every tableau row is the image of the corresponding row of |0..0> *)
@@ -88,3 +88,37 @@ Print Assumptions C12_projector_product_is_the_density_matrix.
 Theorem C12_density_matrix_trace_one : forall n t, tableau_ok n t -> trace_sem n (density_poly t) = c1.
 Proof. exact trace_rho_one. Qed.
 Print Assumptions C12_density_matrix_trace_one.
+
+(* THE CONSTRUCTORS DENOTE THE DENSITY MATRICES THEIR NAMES SAY, entry by entry in the ket semantics.
+   random_bit_state(N) = the zero-state strings with 2N random phases from {0,2}: a computational-basis state |b><b| with b read off the first N phases, whatever the
+   destabilizer signs; zero_state = |0..0><0..0|; one_state = |1..1><1..1|; maximally_mixed_state = 2^-N identity *)
+Theorem C12_bit_state_valid : forall n bits dsigns, length bits = n -> length dsigns = n -> tableau_ok n (bit_state n bits dsigns).
+Proof. exact bit_state_ok. Qed.
+Print Assumptions C12_bit_state_valid.
+Theorem C12_bit_state_is_the_basis_projector : forall n bits dsigns k k', length bits = n -> length dsigns = n -> length k = n -> length k' = n ->
+  amp (density_poly (bit_state n bits dsigns)) k k' = if ket_eqb k bits && ket_eqb k' bits then c1 else c0.
+Proof. exact bit_state_density. Qed.
+Print Assumptions C12_bit_state_is_the_basis_projector.
+Theorem C12_zero_state_is_the_all_zero_projector : forall n k k', length k = n -> length k' = n ->
+  amp (density_poly (zero_state n)) k k' = if ket_eqb k (repeat false n) && ket_eqb k' (repeat false n) then c1 else c0.
+Proof. exact zero_state_density. Qed.
+Print Assumptions C12_zero_state_is_the_all_zero_projector.
+Theorem C12_one_state_is_the_all_one_projector : forall n k k', length k = n -> length k' = n ->
+  amp (density_poly {| rows := map (fun a => (fst a, 2)) (rows (zero_state n)); rk := 0 |}) k k' = if ket_eqb k (repeat true n) && ket_eqb k' (repeat true n) then c1 else c0.
+Proof. exact one_state_density. Qed.
+Print Assumptions C12_one_state_is_the_all_one_projector.
+Theorem C12_maximally_mixed_state_is_the_scaled_identity : forall n k k', length k = n -> length k' = n ->
+  amp (density_poly (mixed_state n)) k k' = if ket_eqb k k' then half_pow n else c0.
+Proof. exact mixed_state_density. Qed.
+Print Assumptions C12_maximally_mixed_state_is_the_scaled_identity.
+(* random_pauli_state: the state of a tensor product of one-qubit maps has single-site stabilizers, and a pure valid state with single-site stabilizers has entropy 0
+   on EVERY region (as the code computes it and by the reference formula): it is a product state *)
+Theorem C12_random_pauli_state_has_single_site_stabilizers : forall pairs phases,
+  Forall (fun p : pstr * pstr => length (fst p) = 1%nat /\ length (snd p) = 1%nat) pairs ->
+  Forall (fun a : pauli => weight (fst a) <= 1) (stabilizers (to_state (combine (random_pauli_from pairs) phases) 0)).
+Proof. exact random_pauli_state_is_product. Qed.
+Print Assumptions C12_random_pauli_state_has_single_site_stabilizers.
+Theorem C12_single_site_stabilizers_mean_product_state : forall n t m, tableau_ok n t -> rk t = 0%nat -> length m = n ->
+  Forall (fun a : pauli => (weight (fst a) <= 1)) (stabilizers t) -> entropy t m = 0 /\ entropy_of n (map fst (stabilizers t)) m = 0.
+Proof. exact product_state_entropy_code_zero. Qed.
+Print Assumptions C12_single_site_stabilizers_mean_product_state.
